@@ -855,22 +855,24 @@ theorem getState_some {c : Cfg} {s : St} (i : Inv c s) (q : String) (w : Nat)
     split at h
     · cases h
     · next id ha =>
-      split at h
-      · next x hx =>
-        split at h
-        · cases h
-        · next hc =>
-          simp only [Option.some.injEq] at h
-          have hmem : x ∈ s.timers := List.mem_of_find?_eq_some hx
-          have hlive : x ∈ live s := by
-            unfold live; simp [List.mem_filter, hmem, hc]
-          rcases i.timer with ⟨hl, _⟩ | ⟨hd, hl, hact, _⟩
-          · rw [hl] at hlive; cases hlive
-          · rw [hl] at hlive
-            simp only [List.mem_singleton] at hlive
-            subst hlive
-            exact ⟨x, hl, h, hact⟩
-      · cases h
+      unfold liveHandle at h
+      cases hx : s.timers.find? (fun h => h.id == id && !h.cancelled) with
+      | none => rw [hx] at h; cases h
+      | some x =>
+        rw [hx] at h
+        simp only [Option.map_some, Option.some.injEq] at h
+        have hmem : x ∈ s.timers := List.mem_of_find?_eq_some hx
+        have hp := List.find?_some hx
+        have hc : x.cancelled = false := by
+          simp only [Bool.and_eq_true, Bool.not_eq_true'] at hp; exact hp.2
+        have hlive : x ∈ live s := by
+          unfold live; simp [List.mem_filter, hmem, hc]
+        rcases i.timer with ⟨hl, _⟩ | ⟨hd, hl, hact, _⟩
+        · rw [hl] at hlive; cases hlive
+        · rw [hl] at hlive
+          simp only [List.mem_singleton] at hlive
+          subst hlive
+          exact ⟨x, hl, h, hact⟩
 
 theorem getState_idle {s : St} (hi : Idle s) (q : String) (hq : s.state = some q) :
     getState s = some (q, none) := by
